@@ -92,9 +92,32 @@ def run(ctx, rep):
                 writes[r.attr] = (n, None, _subst(utext(c.args[0]), env), "append")
             elif isinstance(r, ast.Subscript) and isinstance(r.value, ast.Attribute) and utext(r.value.value) == "self":
                 writes[r.value.attr] = (n, _subst(utext(r.slice), env), _subst(utext(c.args[0]), env), "append")
-    for cname in conts:
+    for cname in list(conts):
         if cname not in VIEWS:
-            raise AnalysisError("Blotter container %s is not in the view table of the checker" % cname)
+            # a container the checker does not know: it matters here only if orders are put into it
+            holds_orders = False
+            for f2 in bl.methods.values():
+                for st2 in walk_nodes(f2.node.body, (ast.Assign, ast.AugAssign)):
+                    for t2, k2 in store_targets(st2):
+                        r2 = t2
+                        while isinstance(r2, ast.Subscript):
+                            r2 = r2.value
+                        if isinstance(r2, ast.Attribute) and r2.attr == cname and t2 is not r2 and \
+                                any(isinstance(x, ast.Name) and x.id in ("order", oparam) for x in ast.walk(st2.value)):
+                            holds_orders = True
+                for c2 in walk_calls(f2.node.body):
+                    if isinstance(c2.func, ast.Attribute) and c2.func.attr in ("append", "add", "insert", "extend", "setdefault"):
+                        r2 = c2.func.value
+                        while isinstance(r2, ast.Subscript):
+                            r2 = r2.value
+                        if isinstance(r2, ast.Attribute) and r2.attr == cname and \
+                                any(isinstance(x, ast.Name) and x.id in ("order", oparam) for a2 in c2.args for x in ast.walk(a2)):
+                            holds_orders = True
+            if holds_orders:
+                raise AnalysisError("Blotter container %s holds orders but is not in the view table of the checker" % cname)
+            rep.remark("R1", "Blotter.%s is not an order view (no order is stored in it): not part of the coherence check" % cname, init)
+            conts.remove(cname)
+            continue
         wkey, reader, rkey = VIEWS[cname]
         w = writes.get(cname)
         if not rep.check(w is not None, "R1", "Blotter.__setitem__ populates %s" % cname, setitem, None,
